@@ -21,8 +21,14 @@ def concrete_sources(cx):
     return sorted(out, key=lambda x: x[1].lineno)
 
 
-def open_check(ct):
-    """is this condition an 'is the source open' test?  -> (True, polarity) polarity = truth value meaning OPEN"""
+def open_check(ct, open_fields=None):
+    """is this condition an 'is the source open' test?  Either one of the usual spellings, or (open_fields given: the self fields
+    that is_open() reads) any test that mentions only those fields and constants -- a state kept as an enum member, a constant ..."""
+    if open_fields:
+        attrs = [x for x in walk(ct) if x[0] == 'attr' and x[1] == ('self',)]
+        other = [x for x in walk(ct) if x[0] in ('p', 'lp', 'call', 'loopvar', 'unk', 'elem') and not (x[0] == 'call' and x[1][0] == 'attr' and x[1][1] == ('self',) and x[1][2] == 'is_open')]
+        if attrs and all(a[2] in open_fields for a in attrs) and not other:
+            return True
     if ct[0] == 'call' and ct[1][0] == 'attr' and ct[1][1] == ('self',) and ct[1][2] == 'is_open':
         return True
     if ct[0] == 'attr' and ct[1] == ('self',) and 'open' in ct[2]:
@@ -83,7 +89,10 @@ def buffer_semantics(cx, rep):
         rdm = meth('read')
         cur_f = sorted({e[1][2] for l in dl(rdm) for e in l.effects if e[0] == 'store' and e[1][0] == 'attr' and e[1][1] == S})
         op = meth('open')
-        open_f = sorted({e[1][2] for l in dl(op) for e in l.effects if e[0] == 'store' and e[1][0] == 'attr' and e[1][1] == S and e[2] == ('c', True)})
+        # the open state: the constant(s) open() stores, and what the constructor stored in the same field(s) (closed)
+        open_vals = {e[1][2]: e[2][1] for l in dl(op) for e in l.effects if e[0] == 'store' and e[1][0] == 'attr' and e[1][1] == S and e[2][0] == 'c' and e[2][1] is not None}
+        closed_vals = {e[1][2]: e[2][1] for l in dl(meth('__init__')) for e in l.effects if e[0] == 'store' and e[1][0] == 'attr' and e[1][1] == S and e[2][0] == 'c' and e[1][2] in open_vals}
+        open_f = sorted(f for f in open_vals if f in closed_vals)
     except Undecided as exc:
         rep.unknown('BufferAudioSource: %s' % exc)
         return
@@ -100,7 +109,7 @@ def buffer_semantics(cx, rep):
         a = {('attr', S, data_f): d, ('p', 'data'): d, ('attr', S, cur_f): c, ('p', 'sample_width'): sw, ('p', 'channels'): ch, ('p', 'sampling_rate'): rate,
              ('attr', S, 'sample_width'): sw, ('attr', S, 'channels'): ch, ('attr', S, 'sampling_rate'): rate}
         for f in open_f:
-            a[('attr', S, f)] = is_open
+            a[('attr', S, f)] = open_vals[f] if is_open else closed_vals[f]
         for k, v in params.items():
             a[('p', k)] = v
         return d, a
@@ -301,14 +310,16 @@ def check(repo, rep):
         isbps = P.Pat(lambda t, _b=bps: (t[0] == 'attr' and t[1] == ('self',) and t[2] in _b) or P.prod(P.role('sample_width'), P.role('channels'))(t), 'bytes_per_sample')
         # ---- R1 open check first, I/O error when not open
         raised_not_open = False
+        io_m = cx.model.find_method(mod, c, 'is_open')
+        ofields = {n.attr for n in ast.walk(io_m[2]) if isinstance(n, ast.Attribute) and isinstance(n.value, ast.Name) and n.value.id == 'self'} if io_m else set()
         for l in lv:
             if not l.conds:
                 rep.ob('read() tests that the source is open before anything else', False, W(rfn), '%s.read:no-open-check' % tag, 'a path of read() has no condition at all')
                 continue
             first = l.conds[0]
-            isoc = open_check(first[0])
+            isoc = open_check(first[0], ofields)
             rep.ob('read() tests that the source is open before anything else', isoc, W(first[2]), '%s.read:first-test' % tag, 'first test is %s' % show(first[0])[:80])
-            calls_before = [e for e in l.effects if e[0] == 'call' and e[4] == 0 and not open_check(e[1])]
+            calls_before = [e for e in l.effects if e[0] == 'call' and e[4] == 0 and not open_check(e[1], ofields)]
             rep.ob('no stream access before the open test', not calls_before, W(rfn), '%s.read:access-before-open-test' % tag, 'calls before the test: %s' % [show(e[1])[:60] for e in calls_before])
             if l.outcome == 'raise' and len(l.conds) == 1 and isoc:
                 en = exc_name(l)
@@ -416,6 +427,55 @@ def check(repo, rep):
                 else:
                     rep.unknown('%s.open: the test guarding the creation of the stream (%s) was not recognised' % (c.name, [(show(ct)[:40], tr) for ct, tr, _ in pre]))
     rep.floor('stream creations in open() of the file sources', nopen, 2)
+    # ---------------------------------------------------------------- file sources hand out exactly what the stream gave them (None when it gave nothing)
+    from ..semantic import deep_leaves as _dl, evaluator as _evl, Undecided as _Und
+    from ..termeval import NotEvaluable as _NE
+    nret = 0
+    for mod, c in srcs:
+        if c.name not in ('RawAudioSource', 'WaveAudioSource', 'StdinAudioSource'):
+            continue
+        r = cx.model.find_method(mod, c, 'read')
+        try:
+            lv_ = _dl(cx, r[0], c, r[2])
+            inner = [e[1] for l in lv_ for e in l.effects if e[0] == 'call' and e[1][0] == 'call' and e[1][1][0] == 'attr' and e[1][1][2] in ('read', 'readframes') and e[1][1][1] != ('self',)]
+            inner = [t for i_, t in enumerate(inner) if t not in inner[:i_]]
+            if not inner:
+                raise _Und('no read of the underlying stream found')
+            for given, want in ((b'abcd', b'abcd'), (b'', None)):
+                a_ = {t: given for t in inner}
+                a_.update({('p', 'size'): 2})
+                hit = []
+                for l in lv_:
+                    if l.outcome == 'raise':
+                        continue
+                    ok_ = True
+                    for ct, tr, _ in l.conds:
+                        if not any(x in inner for x in walk(ct)):
+                            continue
+                        ev_ = _evl(a_)
+                        got = ev_.ev(ct)
+                        if ev_.leaves:
+                            raise _Und('condition %s' % show(ct)[:60])
+                        if bool(got) != tr:
+                            ok_ = False
+                            break
+                    if ok_:
+                        hit.append(l)
+                if not hit:
+                    raise _Und('no path applies when the stream gives %r' % (given,))
+                for l in hit:
+                    if not any(x in inner for e in l.effects for x in walk(e[1]) if e[0] == 'call' and isinstance(e[1], tuple)):
+                        continue          # a path that does not read the stream at all (size handling ...)
+                    ev_ = _evl(a_)
+                    got = ev_.ev(l.value) if l.value is not None else None
+                    if ev_.leaves:
+                        raise _Und('returned value %s' % show(l.value)[:60])
+                    nret += 1
+                    rep.ob('read() hands out exactly the bytes the underlying stream returned, and None when it returned nothing', got == want, cx.where(r[0], l.node) if l.node is not None else cx.where(r[0], r[2]),
+                           '%s.read:returns[%s]' % (c.name, 'data' if given else 'end'), 'when the stream returns %r, read() returns %r' % (given, got), sample=dict(source=c.name, stream_gives=repr(given), read_returns=repr(got)))
+        except (_Und, _NE) as exc:
+            rep.unknown('%s.read: what is returned could not be evaluated (%s)' % (c.name, exc))
+    rep.floor('file-source read results evaluated', nret, 4)
     # ---------------------------------------------------------------- a source is closed until open() is called (reading it raises the I/O error)
     from ..semantic import deep_leaves, evaluator, Undecided
     from ..termeval import NotEvaluable
@@ -578,9 +638,12 @@ def check(repo, rep):
     rep.floor('read() implementations analysed', nread, 5)
     check_roles(cx, rep, lambda p: p['where'].startswith('auditok/io.py'), floor=60)
     rep.explanation = ('Sibling agreement of the read() implementations of every concrete AudioSource subclass found in the class table (5 today), each resolved through its MRO and decided on every path: '
-                       'the open test is the first test and its failing branch raises AudioIOError; every returned value is None or was tested non-empty on that path (never b""); the underlying request is '
-                       'size * sample_width * channels bytes (size frames for wave), None/negative size reads all (buffer, raw, wav); buffer cursor: slice [cursor : cursor + size*bps], cursor += len(returned); '
-                       'position getter cursor // bps, setter position*bps (+ len(data) when negative) with IndexError exactly for < 0 or > len; position_s/ms go through position; rewind -> 0; close -> rewind; '
-                       'check_audio_data rejects partial samples and both constructors call it unconditionally; audio-parameter role agreement at every hand-over in io.py. '
-                       'NOT decided: equivalence over whole operation histories (argued from these per-operation facts).')
+                       'the open test is the first test and its failing branch raises AudioIOError; every returned value is None or was tested non-empty on that path (never b""); file sources request '
+                       'size * sample_width * channels bytes (size frames for wave), None/negative size reads all. The buffer source is decided operation by operation, semantically: its paths (helpers, '
+                       'property getters and setters inlined) are evaluated on grids of small buffers / cursors / arguments -- read(size) returns the next min(size, remaining) whole samples, None at the end, '
+                       'and advances the one field it updates by what it returned; position reads back samples consumed; position = v (v + length when negative), IndexError exactly outside 0..length; '
+                       'position_s / position_ms = int(rate * t [/ 1000]) through position (grid includes the (rate, time) pairs where the float product lands off an integer); rewind and close return to 0. '
+                       'For the four source kinds is_open() is evaluated after construction (False), after open (True), close (False), reopen (True), double open; open() of a file source recreates the stream '
+                       'only under a not-open test. check_audio_data raises exactly for lengths that are not a multiple of width*channels (grid) and both constructors call it unconditionally; audio-parameter '
+                       'role agreement at every hand-over in io.py. NOT decided: equivalence over whole operation histories (argued from these per-operation facts).')
     rep.assumptions = ['file objects, wave.Wave_read.readframes and sys.stdin.buffer.read return at most the requested amount and b"" at end of data']
